@@ -32,13 +32,13 @@ import (
 )
 
 type vfFwdScenario struct {
-	Mode   string `json:"mode"` // default | lcm
+	Mode string `json:"mode"` // default | lcm
 	// SourceIgnoresHalfClose: the source does not end the stream when the proxy half-closes it (a hung or
 	// slow peer); the handler must still return because the proxy cancels the outgoing stream.
 	SourceIgnoresHalfClose bool `json:"source_ignores_half_close"`
-	NResp  int    `json:"n_resp"`
-	NAck   int    `json:"n_ack"`
-	MaxAdv int    `json:"max_adv"`
+	NResp                  int  `json:"n_resp"`
+	NAck                   int  `json:"n_ack"`
+	MaxAdv                 int  `json:"max_adv"`
 }
 
 type vfFwdJob struct {
